@@ -7,7 +7,7 @@ wt=/tmp/seedrun/cf$tag; mkdir -p /tmp/seedrun
 git -C /repo worktree add -q --detach "$wt" HEAD || exit 2
 cd "$wt"
 PYTHONPATH=$wt timeout 600 /venv/bin/python "$d/demo.py" > /dev/null 2>&1; base=$?
-git apply "$d/patch.diff" 2>/dev/null; ap=$?
+git apply "$d/patch.diff" 2>/dev/null || git apply -3 "$d/patch.diff" 2>/dev/null; ap=$?; git diff --name-only --diff-filter=U | grep -q . && ap=9
 PYTHONPATH=$wt timeout 900 /venv/bin/python -m pytest -q -p no:cacheprovider -x tests --ignore=tests/test_external > "$wt.tests" 2>&1; tr=$?
 passed=$(grep -o '[0-9]* passed' "$wt.tests" | head -1)
 PYTHONPATH=$wt timeout 600 /venv/bin/python "$d/demo.py" > /dev/null 2>&1; mut=$?
